@@ -27,6 +27,8 @@ def run_check(prop: str, tier: str, repo: str, quiet=False) -> int:
     try:
         eng = Engine(repo, tier)
         mod.run(eng, rep)
+        if tier == 'thorough':
+            thorough_extras(prop, repo, rep)
     except AnalysisError as ex:
         rep.error(str(ex))
     except Exception:
@@ -35,6 +37,46 @@ def run_check(prop: str, tier: str, repo: str, quiet=False) -> int:
         rep.error('internal error in checker: ' +
                   tb.strip().splitlines()[-1])
     return rep.finish(eng.r if eng is not None else None)
+
+
+def thorough_extras(prop: str, repo: str, rep: Report):
+    """Thorough tier = the quick rules with deeper bounds (rules consult
+    engine.tier) plus a *sensitivity* pass: every must-fire variant of the
+    self-test corpus for this property is applied to a scratch copy of the
+    CURRENT tree and the named rule has to fire; every behaviour-preserving
+    twin has to stay silent.  This shows on each run that the discharged
+    obligations are not vacuous on this tree.  A variant whose edit pattern
+    no longer matches the tree is reported as stale; sensitivity results are
+    informational and never turn a holding property into an alarm."""
+    from . import selftest
+    from concurrent.futures import ProcessPoolExecutor
+    import functools
+    muts = [m for m in selftest.load_corpus() if m['prop'] == prop]
+    res = []
+    if muts:
+        with ProcessPoolExecutor(max_workers=16) as ex:
+            res = list(ex.map(functools.partial(selftest._run_one,
+                                                repo=repo), muts))
+    fire = [r for r, m in zip(res, muts) if m['expect'] != 'silent']
+    twin = [r for r, m in zip(res, muts) if m['expect'] == 'silent']
+    rep.extra['sensitivity'] = {
+        'variants': len(fire),
+        'fired': sum(1 for r in fire if r[1] == 'OK'),
+        'missed': [r[0] for r in fire if r[1] == 'MISSED'],
+        'stale': [r[0] for r in res if r[1] == 'STALE'],
+        'silent_twins': len(twin),
+        'twins_silent': sum(1 for r in twin if r[1] == 'OK'),
+        'false_alarms_on_twins': [r[0] for r in twin
+                                  if r[1] == 'FALSE-ALARM'],
+    }
+    rep.evaluations += len(res)
+    s = rep.extra['sensitivity']
+    rep.notes.append('sensitivity: %d/%d weakened variants of the current '
+                     'tree detected, %d/%d behaviour-preserving twins '
+                     'silent, %d stale' % (s['fired'], s['variants'],
+                                           s['twins_silent'],
+                                           s['silent_twins'],
+                                           len(s['stale'])))
 
 
 def main(argv=None) -> int:
